@@ -75,6 +75,17 @@ LeftShifting(op, regime) == \E k \in 1 .. 3 : LET a == Outcome(op, k, "deep", 1)
 Enforced(op, regime) == (Determined(op, regime) \ NotDirect(op, regime)) \cup {"clk"}
                         \cup (IF regime # "d16" /\ LeftShifting(op, regime) THEN {"hb"} ELSE {})
 
+\* operands the operation pins down: positions of the CURRENT row for which every other small value makes the operation
+\* fail (field_ops.md: NOT / AND / OR "ensure that the value in s0 (and s1) is binary"; stack_ops.md: CSWAP / CSWAPW "enforce
+\* that the value in s0 is binary"; system_ops.md: ASSERT "s0 = 1").  No next row is valid for such a current row, so the
+\* constraint system must reject the pair whatever the next row holds: cells "c0", "c1", "c2".
+WrongOperands == {Small(2), Small(3), Small(5)}
+Pinned(op) ==
+  {i \in 0 .. 2 : \A k \in 1 .. 3 : \A v \in WrongOperands :
+      LET m == Machine(k, "d16", 1) IN
+      ApplyOp([m EXCEPT !.stack[i + 1] = v], OpRec(op), HiddenEnv(1)).ok = "fail"}
+PinnedCells(op) == {CASE i = 0 -> "c0" [] i = 1 -> "c1" [] i = 2 -> "c2" : i \in Pinned(op)}
+
 \* ------------------------------------------------------------------------
 \* helper registers of the current row (h0 .. of docs = decoder user-op helper columns)
 \* limb relations of u32_ops.md, with L = 2^16 ; each returns TRUE iff <<h0,h1,h2,h3>> (all < L) are the operation's limbs
